@@ -138,6 +138,85 @@ func pinched(rng *rand.Rand, G float64, U int64) []ipt {
 	return out
 }
 
+// chole: a big rectangle with a C-shaped hole (a ring-shaped hole with a slit narrower than a pixel, so that the enclosed part of the
+// polygon pinches off into a nested polygon) and, often, a second small hole inside the enclosed part, close to its edge
+func chole(rng *rand.Rand, G float64, U int64) [][]ipt {
+	gi := int64(G)
+	if gi < 12 {
+		return nil
+	}
+	W, H := (6+rng.Int63n(gi-9))*U, (6+rng.Int63n(gi-9))*U
+	x0, y0 := (1+rng.Int63n(gi-2-W/U))*U+rng.Int63n(U), (1+rng.Int63n(gi-2-H/U))*U+rng.Int63n(U)
+	if x0+W >= gi*U-U/2 || y0+H >= gi*U-U/2 {
+		return nil
+	}
+	shell := []ipt{{x0 - U/2, y0 - U/2}, {x0 + W + U/2, y0 - U/2}, {x0 + W + U/2, y0 + H + U/2}, {x0 - U/2, y0 + H + U/2}}
+	t := U + rng.Int63n(U)             // thickness of the C
+	s := 1 + rng.Int63n(max64(1, U/3)) // half width of the slit: well below a pixel
+	m := y0 + H/2
+	m1 := U/2 + rng.Int63n(U/2+1) // margin between shell and C
+	ox0, oy0, ox1, oy1 := x0+m1, y0+m1, x0+W-m1, y0+H-m1
+	c := []ipt{{ox0, oy0}, {ox1, oy0}, {ox1, m - s}, {ox1 - t, m - s}, {ox1 - t, oy0 + t}, {ox0 + t, oy0 + t}, {ox0 + t, oy1 - t}, {ox1 - t, oy1 - t}, {ox1 - t, m + s}, {ox1, m + s}, {ox1, oy1}, {ox0, oy1}}
+	rings := [][]ipt{shell, c}
+	if rng.Intn(4) > 0 { // a small hole in the enclosed part, near one of its sides
+		ix0, iy0, ix1, iy1 := ox0+t, oy0+t, ox1-t, oy1-t
+		if ix1-ix0 > 3*U && iy1-iy0 > 3*U {
+			d := 1 + rng.Int63n(U) // distance to the enclosed part's edge: within a pixel
+			var hx, hy int64
+			switch rng.Intn(4) {
+			case 0:
+				hx, hy = ix0+d, iy0+U+rng.Int63n(iy1-iy0-2*U)
+			case 1:
+				hx, hy = ix1-d-U, iy0+U+rng.Int63n(iy1-iy0-2*U)
+			case 2:
+				hx, hy = ix0+U+rng.Int63n(ix1-ix0-2*U), iy0+d
+			default:
+				hx, hy = ix0+U+rng.Int63n(ix1-ix0-2*U), iy1-d-U
+			}
+			rings = append(rings, []ipt{{hx, hy}, {hx + U, hy + U/3}, {hx + U/2, hy + U}})
+		}
+	}
+	return rings
+}
+
+// edgehole: a rectangle with a small hole within a pixel of one of its sides or corners (top/right ones included)
+func edgehole(rng *rand.Rand, G float64, U int64) [][]ipt {
+	shell := rectOnLattice(rng, G, U)
+	if len(shell) != 4 {
+		return nil
+	}
+	a, b, c, d := shell[0].x, shell[0].y, shell[2].x, shell[2].y
+	if c-a < 4*U || d-b < 4*U {
+		return nil
+	}
+	e := 1 + rng.Int63n(U) // distance from the side(s)
+	sz := U/2 + rng.Int63n(2*U)
+	var hx, hy int64
+	switch rng.Intn(8) {
+	case 0: // top right corner
+		hx, hy = c-e-sz, d-e-sz
+	case 1: // top left
+		hx, hy = a+e, d-e-sz
+	case 2:
+		hx, hy = c-e-sz, b+e
+	case 3:
+		hx, hy = a+e, b+e
+	case 4: // top side
+		hx, hy = a+U+rng.Int63n(c-a-2*U-sz), d-e-sz
+	case 5: // right side
+		hx, hy = c-e-sz, b+U+rng.Int63n(d-b-2*U-sz)
+	case 6:
+		hx, hy = a+U+rng.Int63n(c-a-2*U-sz), b+e
+	default:
+		hx, hy = a+e, b+U+rng.Int63n(d-b-2*U-sz)
+	}
+	hole := []ipt{{hx, hy}, {hx + sz, hy + sz/3}, {hx + sz/2, hy + sz}}
+	if rng.Intn(2) == 0 {
+		hole = []ipt{{hx, hy}, {hx + sz, hy}, {hx + sz, hy + sz}, {hx, hy + sz}}
+	}
+	return [][]ipt{shell, hole}
+}
+
 // rectOnLattice: axis-parallel rectangle (or L-shape) with vertices on pixel borders / corners
 func rectOnLattice(rng *rand.Rand, G float64, U int64) []ipt {
 	gi := int64(G)
@@ -174,10 +253,42 @@ func abs64i(a int64) int64 {
 }
 
 // genValid returns a valid polygon (exactly checked) of the requested family in lattice units, or nil
-func genValid(rng *rand.Rand, family string, G float64, U int64, maxv int) [][]ipt {
+func genValid(rng *rand.Rand, family string, G float64, U int64, maxv int) (res [][]ipt) {
+	defer func() { // a generator that runs out of room (rand.Int63n of a non-positive number) just produces nothing
+		if r := recover(); r != nil {
+			res = nil
+		}
+	}()
 	var shell []ipt
 	cx, cy, rmax := 0.0, 0.0, 0.0
 	switch family {
+	case "chole", "edgehole":
+		var rings [][]ipt
+		if family == "chole" {
+			rings = chole(rng, G, U)
+		} else {
+			rings = edgehole(rng, G, U)
+		}
+		if rings == nil {
+			return nil
+		}
+		guu := int64(G * float64(U))
+		for _, r := range rings {
+			for _, p := range r {
+				if p.x < 0 || p.y < 0 || p.x >= guu || p.y >= guu {
+					return nil
+				}
+			}
+		}
+		for i := range rings {
+			if rng.Intn(2) == 0 {
+				reverseRing(rings[i])
+			}
+		}
+		if !validPolygon(rings) {
+			return nil
+		}
+		return rings
 	case "star", "holes":
 		nv := 3 + rng.Intn(maxv-2)
 		rmax = 1 + rng.Float64()*(G/2-1.5)
@@ -362,6 +473,7 @@ func initWindows() {
 		{gs: rd, baseX: 120000, baseY: 480000, G: 24, maxID: 10, minID: 8, weight: 2},
 		{gs: rd, baseX: 155000, baseY: 463000, G: 24, maxID: 5, minID: 3, weight: 1},
 		{gs: wm, baseX: 550000, baseY: 6800000, G: 24, maxID: 18, minID: 16, weight: 2},
+		{gs: wm, baseX: 15550000, baseY: 4250000, G: 24, maxID: 20, minID: 19, weight: 1}, // levels 31 and 32, far from the origin
 		{gs: laea, baseX: 4000000, baseY: 3200000, G: 24, maxID: 14, minID: 12, weight: 2},
 	}
 }
@@ -381,7 +493,7 @@ func pickWindow(rng *rand.Rand, ws []window) window {
 	return ws[0]
 }
 
-var validFamilies = []string{"star", "star", "holes", "holes", "comb", "sliver", "pinched", "rect"}
+var validFamilies = []string{"star", "star", "holes", "holes", "comb", "sliver", "pinched", "rect", "chole", "edgehole"}
 
 // genCase: one snapping case. valid=true: a valid polygon; otherwise arbitrary vertex sequences.
 func genCase(rng *rand.Rand, w window, valid bool, maxv int) *snapCase {
